@@ -59,7 +59,11 @@ Definition poll_group (mrg : bool) (g : fub) (t : nat) (w : world) : fub * spoll
 (** the [for _ in 0..groups.len()] loop of [poll_next] *)
 Fixpoint fu_loop (mrg : bool) (n : nat) (u : fu) (t : nat) (w : world) : fu * spoll * world :=
   match n with
-  | O => (u, SPending, w)
+  | O =>
+      (* end of the loop: nothing left at all (every group drained during this call) is
+         reported as None, not Pending *)
+      if (if mrg then forallb (fun g => Nat.eqb (fub_len g) 0) (groups u) else Nat.eqb (rem u) 0)
+      then (u, SNone, w) else (u, SPending, w)
   | S n' =>
       let cur := if Nat.leb (length (groups u)) (cursor u) then 0 else cursor u in
       match nth_error (groups u) cur with
@@ -68,8 +72,9 @@ Fixpoint fu_loop (mrg : bool) (n : nat) (u : fu) (t : nat) (w : world) : fu * sp
           let '(g', sp, w) := poll_group mrg g t w in
           match sp with
           | SItem tk c =>
+              (* the cursor moves on after a yield *)
               ({| groups := upd (groups u) cur g'; rem := if mrg then rem u else pred (rem u);
-                  cursor := cur; gcap := gcap u |}, SItem tk c, w)
+                  cursor := S cur; gcap := gcap u |}, SItem tk c, w)
           | SNone =>
               let gs := remove_nth (groups u) cur in
               match gs with
